@@ -174,7 +174,7 @@ func (kc *Cache[V]) Delete(key []byte) *Entry[V] {
 	return &e
 }
 
-// ForEach calls fn with entries.
+// ForEach calls fn with entries in order of non-decreasing distance from k.
 // All of the entries with n bits in common with k will be emitted
 // before any of the entries with n-1 bits in common with k.
 func (kc *Cache[V]) ForEach(k []byte, fn func(e Entry[V]) bool) {
@@ -182,9 +182,20 @@ func (kc *Cache[V]) ForEach(k []byte, fn func(e Entry[V]) bool) {
 	defer kc.mu.RUnlock()
 	d := Distance(kc.locus, k)
 	lz := LeadingZeros(d)
-	// everything in these buckets will have lz bits matching k.
+	// bit reports whether bit i of d is set; bits past the end of d count as set.
+	bit := func(i int) bool {
+		return i/8 >= len(d) || d[i/8]&(0x80>>uint(i%8)) != 0
+	}
+	// Entries of bucket i > lz differ from k first at bit lz, and agree with the locus up to bit i, where they differ.
+	// If bit i of d is set they agree with k at bit i, and are closer than everything in the buckets above i,
+	// otherwise they are further than everything in the buckets above i.
 	for i := lz; i < len(kc.buckets); i++ {
-		if !kc.buckets[i].forEach(k, fn) {
+		if bit(i) && !kc.buckets[i].forEach(k, fn) {
+			return
+		}
+	}
+	for i := len(kc.buckets) - 1; i > lz; i-- {
+		if !bit(i) && !kc.buckets[i].forEach(k, fn) {
 			return
 		}
 	}
